@@ -107,7 +107,7 @@ fn read_frequencies_inner(
             }
         }
 
-        order_0::normalize_frequencies(fs, bits);
+        order_0::normalize_frequencies(fs, bits)?;
     }
 
     Ok(())
